@@ -222,6 +222,54 @@ def rule_r2(prog, res) -> None:
             res.ok("C08.R2", res.site(m, f"open {tcont} for writing"), f"every path to the rewrite first unlinks '{tmark}'")
     if n == 0:
         raise AnalysisError("C08.R2: no function rewriting the pickled trees found")
+    # catalog: overwriting an existing cache removes the old marker before anything new is written
+    from .. import symx
+    from ..effects import const_str
+
+    cmarker = catalog_marker_leaf(prog)
+    owners = []
+    for fi in prog.funcs:
+        if fi.cls is None:
+            continue
+        _c, effs_ = _fs_nodes(prog, fi, deep=False)
+        if any(leaf is not None and (leaf == cmarker or leaf.startswith(cmarker)) and _is_write(e) for _nd, e, leaf, _f in effs_):
+            owners.append(fi.cls)
+    n_over = 0
+    for ci_ in dict.fromkeys(owners):
+        init = ci_.methods.get("__init__")
+        if init is None or "overwrite" not in init.param_names():
+            continue
+        n_over += 1
+        res.touch(init)
+        paths = [p for p in symx.explore(prog, init, env={"overwrite": True, "exists()": True, "is_dir()": True}, inline=symx.inline_private_helpers(prog)) if p.outcome != "raise"]
+        if not paths:
+            raise AnalysisError(f"C08.R2: no returning path of {init.short} with overwrite=True on an existing cache")
+        bad = None
+        for p in paths:
+            dirs = {unparse(ev.expr.func.value) for ev in p.calls("mkdir") if isinstance(ev.expr.func, ast.Attribute)}
+            removed = False
+            for ev in p.calls():
+                if ev.callee == "rmtree" and ev.expr.args and unparse(ev.expr.args[0]) in dirs and not ev.loops:
+                    removed = True
+                if ev.callee == "unlink" and isinstance(ev.expr.func, ast.Attribute):
+                    r = ev.expr.func.value
+                    if isinstance(r, ast.BinOp) and isinstance(r.op, ast.Div) and const_str(prog, ev.fi, r.right) == cmarker:
+                        removed = True
+            if not removed:
+                bad = p
+        if bad is None:
+            res.ok("C08.R2", res.site(init, "overwrite"), f"overwriting an existing cache first removes the old '{cmarker}' (whole directory or the marker itself) on all {len(paths)} paths")
+        else:
+            res.violation(
+                "C08.R2",
+                init,
+                bad.node or init.node,
+                f"with overwrite=True on an existing cache the old marker '{cmarker}' stays in place while the patches are rewritten: a crash before the new marker is published leaves a catalog "
+                "that opens without error and mixes old and new patch data",
+                key_extra="overwrite-keeps-marker",
+            )
+    if n_over == 0:
+        raise AnalysisError("C08.R2: no catalog writer with an overwrite option found")
     # catalog data files: a patch writer never reuses an existing patch directory
     for pc in prog.classes:
         init = pc.methods.get("__init__")
@@ -464,8 +512,29 @@ def rule_r6(prog, res) -> None:
         if renamed and not direct:
             # the temporary file must be complete before it is renamed
             tmpw = [nd for nd, e, leaf, _ in effs if leaf is not None and leaf != marker and leaf.startswith(marker) and e.op in ("write", "close")]
-            if tmpw and all(any(cfg.dominates(t, r) for t in tmpw) for r in renamed):
-                res.ok("C08.R6", res.site(fi, f"publish {marker}"), "marker is written to a temporary file and renamed into place")
+            # a handle on the temporary file that is still open when the file is renamed has unflushed content
+            opens = [nd for nd, e, leaf, _ in effs if leaf is not None and leaf != marker and leaf.startswith(marker) and e.op == "open" and e.mode and e.mode[0] in "wax"]
+            still_open = None
+            for o in opens:
+                if o.kind == "with_enter":
+                    exits = [x for x in cfg.nodes if x.kind == "with_exit" and not x.exc and x.ast is o.ast]
+                    closed = exits
+                else:
+                    closed = [nd for nd, e, leaf, _ in effs if e.op == "close" and leaf is not None and leaf.startswith(marker)]
+                for r in renamed:
+                    if cfg.dominates(o, r) and not any(cfg.dominates(x, r) for x in closed):
+                        still_open = r
+            if still_open is not None:
+                res.violation(
+                    "C08.R6",
+                    fi,
+                    still_open.ast,
+                    f"the temporary file is renamed onto '{marker}' while the handle that writes it is still open: its content is still buffered, a crash right after the rename leaves an empty marker "
+                    "that re-opens silently as a catalog with no patches",
+                    key_extra="rename-before-close",
+                )
+            elif tmpw and all(any(cfg.dominates(t, r) for t in tmpw) for r in renamed):
+                res.ok("C08.R6", res.site(fi, f"publish {marker}"), "marker is written to a temporary file (closed) and renamed into place")
             else:
                 res.violation("C08.R6", fi, renamed[0].ast, "marker is renamed into place before the temporary file is written", key_extra="rename-before-write")
             continue
